@@ -58,6 +58,9 @@ pub enum Twist {
     ExtraFileInLinkDir(u8),
     LayoutAsLink,
     LinkAsLayout,
+    /// a step delegated to a sub-layout that delegates the same step to the same functionary, whose link
+    /// directory `<step>.<keyid8>` is a symbolic link (to `.`, to the link directory's absolute path, to `../<dir>`, to itself, to nothing)
+    SelfDelegationThroughSymlink(u8),
 }
 
 const WEIRD_NAMES: &[&str] = &["[", "*", "?", "a[b", "]", "{a,b}", "ünï", "a b", "a/b", "../x", "", ".", "**", "[!", "\\", "a\nb", "\u{0}", "s.????????", "%s"];
@@ -345,6 +348,7 @@ fn twist_strategy() -> BoxedStrategy<Twist> {
         2 => any::<u8>().prop_map(Twist::ExtraFileInLinkDir),
         1 => Just(Twist::LayoutAsLink),
         1 => Just(Twist::LinkAsLayout),
+        2 => any::<u8>().prop_map(Twist::SelfDelegationThroughSymlink),
     ]
     .boxed()
 }
@@ -386,7 +390,7 @@ impl Property for C14 {
         "Generated: (a) structured adversarial documents: valid worlds twisted with non-ASCII 64-byte key ids (2-, 3-, 4-byte characters, \
          char boundary at byte 8) in link and layout signatures, step names with glob metacharacters / path separators / control characters / \
          empty, non-normalised artifact paths (./x, a/../b, /abs, empty, ..) under MATCH/CREATE/.. rules, empty collections, thresholds and \
-         return values at and beyond u32/i32/u64, extra files in the link directory (garbage, deep nesting, other metadata type), run through \
+         return values at and beyond u32/i32/u64, extra files in the link directory (garbage, deep nesting, other metadata type), a step delegated to a sub-layout that delegates the same step to the same functionary while its link directory is a symbolic link back to the link directory (., absolute, ../dir, itself, dangling), run through \
          in_toto_verify; adversarial paths/patterns/prefixes through rule application; (b) mutational: bit flips, truncations, dictionary \
          token insertion, range deletion/duplication, byte overwrite, splices over generated valid documents of every type and over the \
          repository's Python-made fixtures, OpenSSL-made SPKI/PKCS#8 files, PEM, hex, key ids and PAE encodings, offered to every parser, key \
@@ -507,6 +511,26 @@ impl Property for C14 {
                             }
                         }
                     }
+                    Twist::SelfDelegationThroughSymlink(_) => {
+                        let sname = w.layout.steps[0].name.clone();
+                        if let Some(k) = w.layout.steps[0].pubkeys.first().cloned() {
+                            w.layout.steps[0].threshold = 1;
+                            w.links.retain(|f| f.step != sname);
+                            let inner = World {
+                                layout: LayoutSpec {
+                                    expires: 4_000_000_000,
+                                    readme: String::new(),
+                                    keys: vec![k.clone()],
+                                    steps: vec![StepSpec { name: sname.clone(), threshold: 1, pubkeys: vec![k.clone()], expected_command: vec![], expected_materials: vec![], expected_products: vec![] }],
+                                    inspect: vec![],
+                                },
+                                sigs: vec![SigEntry::good(&k)],
+                                tamper: None,
+                                links: vec![],
+                            };
+                            w.links.push(LinkFile { step: sname, filed_under: k, body: Body::Sub { world: Box::new(inner), placement: Placement::Proper } });
+                        }
+                    }
                     Twist::LayoutAsLink => {
                         // a layout where a link is expected, signed by the functionary
                         if let Some(f) = w.links.first_mut() {
@@ -547,6 +571,23 @@ impl Property for C14 {
                         let weird = ["deadbeef", "€1234567", "1234567é", "😀😀😀😀😀😀😀😀", "ééééaaaa", "abc€defg", "????????", "a b c d "][(*n as usize / 6) % 8];
                         let body = if n % 2 == 0 { genuine.unwrap_or(body) } else { body };
                         post.push((format!("{}.{}.link", sname, weird), body));
+                    }
+                    Twist::SelfDelegationThroughSymlink(n) => {
+                        if let Some(f) = w.links.iter().find(|f| matches!(f.body, Body::Sub { .. })) {
+                            let name = format!("{}.{}", f.step, prefix8(&f.filed_under));
+                            let sub = dir.join(&name);
+                            if !name.contains('/') && !name.contains('\0') && sub.is_dir() {
+                                let _ = std::fs::remove_dir_all(&sub);
+                                let target = match n % 5 {
+                                    0 => ".".to_string(),
+                                    1 => dir.display().to_string(),
+                                    2 => format!("../{}", dir.file_name().and_then(|x| x.to_str()).unwrap_or(".")),
+                                    3 => name.clone(),
+                                    _ => "nowhere".to_string(),
+                                };
+                                let _ = std::os::unix::fs::symlink(target, &sub);
+                            }
+                        }
                     }
                     Twist::LinkAsLayout => {
                         // hand a link block to in_toto_verify as if it were the layout
